@@ -111,6 +111,13 @@ func Start(prop, level string) *Run {
 		r.Seed, _ = strconv.ParseInt(s, 10, 64)
 	}
 	r.loadFindings()
+	// last-resort watchdog: a check that is still running long after its internal budget (code under
+	// test that never returns) ends as a harness error (exit 2, no verdict) instead of hanging forever
+	limit := 3*r.Budget + 10*time.Minute
+	time.AfterFunc(limit, func() {
+		fmt.Printf("HARNESS-ERROR property=%s: watchdog: still running after %v (budget %v); no verdict\n", r.Prop, limit, r.Budget)
+		os.Exit(2)
+	})
 	return r
 }
 
